@@ -431,7 +431,23 @@ impl<'a> Gen<'a> {
     /// a sequence the dispatch tables do not implement (must be inert)
     pub fn unimplemented(&mut self) -> String {
         let csi = self.csi();
-        match self.r.below(9) {
+        match self.r.below(11) {
+            9 => {
+                // private marker followed by an intermediate, or two intermediates: no such sequence
+                // is implemented
+                let mk = *self.r.pick(&["?", "?", "<", ">", ""]);
+                let i1 = char::from_u32(0x20 + self.r.below(0x10) as u32).unwrap();
+                let i2 = if mk.is_empty() || self.r.chance(1, 3) { char::from_u32(0x20 + self.r.below(0x10) as u32).unwrap().to_string() } else { String::new() };
+                let f = *self.r.pick(&['h', 'l', 'p', 'm', 'H', 'J', 'r', 'q', 'A']);
+                let v = *self.r.pick(&["", "25", "6", "7", "1049", "1;2"]);
+                format!("{}{}{}{}{}{}", csi, mk, v, i1, i2, f)
+            }
+            10 => {
+                let i1 = *self.r.pick(&['#', '(', ')', ' ', '%']);
+                let i2 = char::from_u32(0x20 + self.r.below(0x10) as u32).unwrap();
+                let f = *self.r.pick(&['8', '0', 'B', 'c', '7']);
+                format!("\x1b{}{}{}", i1, i2, f)
+            }
             0 => {
                 // CSI final outside the table
                 let f = *self.r.pick(&['N', 'O', 'Q', 'R', 'U', 'V', 'Y', '[', '\\', ']', '^', '_', 'c', 'i', 'j', 'k', 'n', 'o', 'p', 'q', 'v', 'w', 'x', 'y', 'z', '{', '|', '}', '~']);
